@@ -26,15 +26,20 @@ import (
 
 const c18NReg = 4
 
-type c18 struct {
-	regs [c18NReg]mapset.Set[int]
+// The runner is generic over the MEMBER type K: the op lines carry integers, enc/dec convert (a bijection, so the
+// driver needs nothing new).  `reset` runs Set[int]; `reset str` runs Set[string] (members c11strEnc: strings of
+// different lengths, "" — the zero value Pop returns on an empty set — for 0).
+type c18r[K comparable] struct {
+	enc  func(int) K
+	dec  func(K) int
+	regs [c18NReg]mapset.Set[K]
 	prev string // the previous op line of the current history
 	st   *Stats
 	high [c18NReg]int // most members the register's current map has held
 }
 
 // noteSizes labels growth past a size threshold and a shrink back below a quarter of the high-water mark.
-func (r *c18) noteSizes() {
+func (r *c18r[K]) noteSizes() {
 	for i, m := range r.regs {
 		n := len(m)
 		if n > r.high[i] {
@@ -49,14 +54,14 @@ func (r *c18) noteSizes() {
 	}
 }
 
-func c18Ptr(m mapset.Set[int]) uintptr {
+func c18Ptr[K comparable](m mapset.Set[K]) uintptr {
 	if m == nil {
 		return 0
 	}
 	return reflect.ValueOf(m).Pointer()
 }
 
-func (r *c18) ptrs() (p [c18NReg]uintptr) {
+func (r *c18r[K]) ptrs() (p [c18NReg]uintptr) {
 	for i, m := range r.regs {
 		p[i] = c18Ptr(m)
 	}
@@ -79,14 +84,26 @@ func c18Ints(ts []string) []int {
 	return out
 }
 
-func c18Slice(vs []int) string {
+func (r *c18r[K]) slice(vs []K) string {
 	if vs == nil {
 		return "nil"
 	}
-	return fmtInts(vs)
+	return fmtInts(c11dec(vs, r.dec))
 }
 
-func (r *c18) state() string {
+// ks converts integer tokens to members.
+func (r *c18r[K]) ks(ts []string) []K { return c11enc(c18Ints(ts), r.enc) }
+
+// kmap converts the keys of m.
+func c18kmap[K comparable, V any](r *c18r[K], m map[int]V) map[K]V {
+	out := make(map[K]V, len(m))
+	for k, v := range m {
+		out[r.enc(k)] = v
+	}
+	return out
+}
+
+func (r *c18r[K]) state() string {
 	var sb strings.Builder
 	for i, m := range r.regs {
 		if i > 0 {
@@ -98,7 +115,7 @@ func (r *c18) state() string {
 		}
 		keys := make([]int, 0, len(m))
 		for k := range m {
-			keys = append(keys, k)
+			keys = append(keys, r.dec(k))
 		}
 		sort.Ints(keys)
 		fmt.Fprintf(&sb, "%s/%d", fmtInts(keys), m.Len())
@@ -106,7 +123,7 @@ func (r *c18) state() string {
 	return sb.String()
 }
 
-func (r *c18) alias() string {
+func (r *c18r[K]) alias() string {
 	p := r.ptrs()
 	var pairs []string
 	for i := 0; i < c18NReg; i++ {
@@ -153,26 +170,26 @@ func c18RetIdent(ret, recv uintptr, args []uintptr, pre [c18NReg]uintptr) string
 	return "fresh"
 }
 
-func (r *c18) obs(res, asg string) string {
+func (r *c18r[K]) obs(res, asg string) string {
 	r.noteSizes()
 	return res + " " + asg + " | " + r.state() + " | " + r.alias()
 }
 
 // ctor stores a constructor's result in d.
-func (r *c18) ctor(d int, v mapset.Set[int], args ...uintptr) string {
+func (r *c18r[K]) ctor(d int, v mapset.Set[K], args ...uintptr) string {
 	pre := r.ptrs()
 	r.regs[d] = v
 	return r.obs("-", fmt.Sprintf("s%d:%s", d, c18AsgIdent(c18Ptr(v), 0, args, pre)))
 }
 
 // mut reports a mutator's effect on variable i: ret is the returned set.
-func (r *c18) mut(i int, pre [c18NReg]uintptr, ret mapset.Set[int], args ...uintptr) string {
+func (r *c18r[K]) mut(i int, pre [c18NReg]uintptr, ret mapset.Set[K], args ...uintptr) string {
 	post := c18Ptr(r.regs[i])
 	return r.obs("ret="+c18RetIdent(c18Ptr(ret), post, args, pre),
 		fmt.Sprintf("s%d:%s", i, c18AsgIdent(post, pre[i], args, pre)))
 }
 
-func (r *c18) noteOperands(op string, a, b int) {
+func (r *c18r[K]) noteOperands(op string, a, b int) {
 	s, t := r.regs[a], r.regs[b]
 	switch {
 	case a == b:
@@ -206,7 +223,7 @@ func c18Pairs(ts []string) map[int]int {
 	return m
 }
 
-func (r *c18) Exec(op []string) string {
+func (r *c18r[K]) Exec(op []string) string {
 	line := strings.Join(op, " ")
 	if r.prev == "intersects s1 s0" && line == "has s0 1" {
 		r.st.Note("exhaustive-history-case") // the closing queries of genC18Histories
@@ -214,15 +231,18 @@ func (r *c18) Exec(op []string) string {
 	r.prev = line
 	switch op[0] {
 	case "reset":
-		r.regs = [c18NReg]mapset.Set[int]{}
+		r.regs = [c18NReg]mapset.Set[K]{}
 		r.high = [c18NReg]int{}
+		if len(op) > 1 {
+			r.st.Note("members-" + op[1])
+		}
 		return r.obs("-", "-")
 	case "setnil":
 		return r.ctor(c18Reg(op[1]), nil)
 	case "new":
-		return r.ctor(c18Reg(op[1]), mapset.New(c18Ints(op[2:])...))
+		return r.ctor(c18Reg(op[1]), mapset.New(r.ks(op[2:])...))
 	case "newsize":
-		return r.ctor(c18Reg(op[1]), mapset.NewSize[int](atoi(op[2])))
+		return r.ctor(c18Reg(op[1]), mapset.NewSize[K](atoi(op[2])))
 	case "clone":
 		d, s := c18Reg(op[1]), c18Reg(op[2])
 		if r.regs[s] == nil {
@@ -234,7 +254,7 @@ func (r *c18) Exec(op []string) string {
 		return r.ctor(d, r.regs[s].Clone(), c18Ptr(r.regs[s]))
 	case "intersect":
 		d := c18Reg(op[1])
-		var ss []mapset.Set[int]
+		var ss []mapset.Set[K]
 		var ps []uintptr
 		anyNil := false
 		for _, t := range op[2:] {
@@ -262,13 +282,13 @@ func (r *c18) Exec(op []string) string {
 		}
 		return r.ctor(d, mapset.Intersect(ss...), ps...)
 	case "range":
-		return r.ctor(c18Reg(op[1]), mapset.Range(slices.Values(c18Ints(op[2:]))))
+		return r.ctor(c18Reg(op[1]), mapset.Range(slices.Values(r.ks(op[2:]))))
 	case "keys":
 		if len(op) == 3 && op[2] == "nil" {
 			r.st.Note("keys-nil-map")
-			return r.ctor(c18Reg(op[1]), mapset.Keys[int, int](nil))
+			return r.ctor(c18Reg(op[1]), mapset.Keys[K, int](nil))
 		}
-		return r.ctor(c18Reg(op[1]), mapset.Keys(c18Pairs(op[2:])))
+		return r.ctor(c18Reg(op[1]), mapset.Keys(c18kmap(r, c18Pairs(op[2:]))))
 	case "keyst":
 		// Keys at other VALUE types (the result must not depend on it): `keyst <struct|string|set|bool> d <pairs…|nil>`
 		d, isNil := c18Reg(op[2]), len(op) == 4 && op[3] == "nil"
@@ -282,38 +302,38 @@ func (r *c18) Exec(op []string) string {
 		}
 		switch op[1] {
 		case "struct":
-			var m map[int]struct{}
+			var m map[K]struct{}
 			if !isNil {
-				m = map[int]struct{}{}
+				m = map[K]struct{}{}
 				for k := range pairs {
-					m[k] = struct{}{}
+					m[r.enc(k)] = struct{}{}
 				}
 			}
 			return r.ctor(d, mapset.Keys(m))
 		case "set":
-			var m mapset.Set[int]
+			var m mapset.Set[K]
 			if !isNil {
-				m = mapset.Set[int]{}
+				m = mapset.Set[K]{}
 				for k := range pairs {
-					m[k] = struct{}{}
+					m[r.enc(k)] = struct{}{}
 				}
 			}
 			return r.ctor(d, mapset.Keys(m), c18Ptr(m))
 		case "string":
-			var m map[int]string
+			var m map[K]string
 			if !isNil {
-				m = map[int]string{}
+				m = map[K]string{}
 				for k, v := range pairs {
-					m[k] = strconv.Itoa(v)
+					m[r.enc(k)] = strconv.Itoa(v)
 				}
 			}
 			return r.ctor(d, mapset.Keys(m))
 		default:
-			var m map[int]bool
+			var m map[K]bool
 			if !isNil {
-				m = map[int]bool{}
+				m = map[K]bool{}
 				for k, v := range pairs {
-					m[k] = v%2 == 0
+					m[r.enc(k)] = v%2 == 0
 				}
 			}
 			return r.ctor(d, mapset.Keys(m))
@@ -321,16 +341,16 @@ func (r *c18) Exec(op []string) string {
 	case "values":
 		if len(op) == 3 && op[2] == "nil" {
 			r.st.Note("values-nil-map")
-			return r.ctor(c18Reg(op[1]), mapset.Values[int, int](nil))
+			return r.ctor(c18Reg(op[1]), mapset.Values[int, K](nil))
 		}
-		return r.ctor(c18Reg(op[1]), mapset.Values(c18Pairs(op[2:])))
+		return r.ctor(c18Reg(op[1]), mapset.Values(c18vmap(r, c18Pairs(op[2:]))))
 	case "add":
 		i := c18Reg(op[1])
 		if r.regs[i] == nil {
 			r.st.Note("add-nil-recv")
 		}
 		pre := r.ptrs()
-		ret := r.regs[i].Add(c18Ints(op[2:])...)
+		ret := r.regs[i].Add(r.ks(op[2:])...)
 		return r.mut(i, pre, ret)
 	case "addall":
 		i, t := c18Reg(op[1]), c18Reg(op[2])
@@ -346,7 +366,7 @@ func (r *c18) Exec(op []string) string {
 			r.st.Note("remove-more-items-than-members")
 		}
 		pre := r.ptrs()
-		ret := r.regs[i].Remove(c18Ints(op[2:])...)
+		ret := r.regs[i].Remove(r.ks(op[2:])...)
 		return r.mut(i, pre, ret)
 	case "removeall":
 		i, t := c18Reg(op[1]), c18Reg(op[2])
@@ -366,7 +386,7 @@ func (r *c18) Exec(op []string) string {
 		}
 		pre := r.ptrs()
 		v := r.regs[i].Pop()
-		return r.obs(fmt.Sprint(v), fmt.Sprintf("s%d:%s", i, c18AsgIdent(c18Ptr(r.regs[i]), pre[i], nil, pre)))
+		return r.obs(fmt.Sprint(r.dec(v)), fmt.Sprintf("s%d:%s", i, c18AsgIdent(c18Ptr(r.regs[i]), pre[i], nil, pre)))
 	case "clear":
 		i := c18Reg(op[1])
 		if r.regs[i] == nil {
@@ -376,7 +396,7 @@ func (r *c18) Exec(op []string) string {
 		ret := r.regs[i].Clear()
 		return r.mut(i, pre, ret)
 	case "has":
-		return r.obs(fmtBool(r.regs[c18Reg(op[1])].Has(atoi(op[2]))), "-")
+		return r.obs(fmtBool(r.regs[c18Reg(op[1])].Has(r.enc(atoi(op[2])))), "-")
 	case "len":
 		return r.obs(fmt.Sprint(r.regs[c18Reg(op[1])].Len()), "-")
 	case "isempty":
@@ -404,14 +424,14 @@ func (r *c18) Exec(op []string) string {
 		if n := len(r.regs[i]); n >= 8 && len(op)-2 > n {
 			r.st.Note("hasall-more-items-than-members(duplicates)")
 		}
-		return r.obs(fmtBool(r.regs[i].HasAll(c18Ints(op[2:])...)), "-")
+		return r.obs(fmtBool(r.regs[i].HasAll(r.ks(op[2:])...)), "-")
 	case "hasany":
 		i := c18Reg(op[1])
 		if len(r.regs[i]) == 0 {
 			r.st.Note("hasany-empty-recv")
 		}
 		lbNote(r.st, "hasany-recv-members", len(r.regs[i]))
-		return r.obs(fmtBool(r.regs[i].HasAny(c18Ints(op[2:])...)), "-")
+		return r.obs(fmtBool(r.regs[i].HasAny(r.ks(op[2:])...)), "-")
 	case "slice":
 		i := c18Reg(op[1])
 		if len(r.regs[i]) == 0 {
@@ -419,27 +439,53 @@ func (r *c18) Exec(op []string) string {
 		} else if len(r.regs[i]) > 1 {
 			r.st.Note("slice-several")
 		}
-		return r.obs(c18Slice(r.regs[i].Slice()), "-")
+		return r.obs(r.slice(r.regs[i].Slice()), "-")
 	case "appendnil":
 		i := c18Reg(op[1])
 		if len(r.regs[i]) == 0 {
 			r.st.Note("append-nil-slice-empty-set")
 		}
-		return r.obs(c18Slice(r.regs[i].Append(nil)), "-")
+		return r.obs(r.slice(r.regs[i].Append(nil)), "-")
 	case "append":
 		i := c18Reg(op[1])
-		xs := c18Ints(op[2:])
-		vs := make([]int, len(xs), len(xs)+2*(len(xs)%3))
+		xs := r.ks(op[2:])
+		vs := make([]K, len(xs), len(xs)+2*(len(xs)%3))
 		copy(vs, xs)
 		if len(r.regs[i]) == 0 {
 			r.st.Note("append-empty-set")
 		}
-		return r.obs(c18Slice(r.regs[i].Append(vs)), "-")
+		return r.obs(r.slice(r.regs[i].Append(vs)), "-")
 	case "shuffle":
 		// map iteration order is arbitrary: nothing to do on the implementation
 		return r.obs("-", "-")
 	}
 	return "bad-op"
+}
+
+// c18vmap converts the values of m.
+func c18vmap[K comparable](r *c18r[K], m map[int]int) map[int]K {
+	out := make(map[int]K, len(m))
+	for k, v := range m {
+		out[k] = r.enc(v)
+	}
+	return out
+}
+
+// c18 dispatches on the member type named on the reset line.
+type c18 struct {
+	st  *Stats
+	cur Runner
+}
+
+func (r *c18) Exec(op []string) string {
+	if op[0] == "reset" || r.cur == nil {
+		if op[0] == "reset" && len(op) > 1 && op[1] == "str" {
+			r.cur = &c18r[string]{st: r.st, enc: c11strEnc, dec: c11strDec}
+		} else {
+			r.cur = &c18r[int]{st: r.st, enc: c04ident, dec: c04ident}
+		}
+	}
+	return r.cur.Exec(op)
 }
 
 // ---- generators ----
@@ -469,6 +515,13 @@ func c18Members(mask, n int) string {
 
 // genC18Pairs: every ordered pair of operands over the subsets of {0,1,2,3} plus nil
 // (17 x 17), every binary operation on each pair, both orders, and on each operand with itself.
+// c18str is the case ops run on Set[string] (`reset str`).
+func c18str(ops []string) []string {
+	out := slices.Clone(ops)
+	out[0] = "reset str"
+	return out
+}
+
 func genC18Pairs(g *G) {
 	const n = 4
 	for a := -1; a < 1<<n; a++ {
@@ -485,6 +538,9 @@ func genC18Pairs(g *G) {
 				"addall s0 s1", "issubset s1 s0", "removeall s0 s1", "intersects s0 s1", "pop s1", "pop s1",
 			}
 			g.Each(ops) // exhaustive part: dealt to the generator shards
+			if (a+1+17*(b+1))%3 == 0 {
+				g.Each(c18str(ops)) // a third of the pairs also on Set[string]
+			}
 		}
 	}
 	// every triple over {0,1,2} plus nil for the n-ary Intersect (9^3 cases would be too many lines
@@ -493,8 +549,12 @@ func genC18Pairs(g *G) {
 	for a := -1; a < 1<<m; a++ {
 		for b := -1; b < 1<<m; b++ {
 			for c := -1; c < 1<<m; c += 1 + g.Scale(2, 0) {
-				g.Each([]string{"reset", c18Set("s0", a, m), c18Set("s1", b, m), c18Set("s2", c, m),
-					"intersect s3 s0 s1 s2", "intersect s3 s2 s1 s0", "intersect s3 s1 s2 s0 s1", "intersect s3"})
+				ops := []string{"reset", c18Set("s0", a, m), c18Set("s1", b, m), c18Set("s2", c, m),
+					"intersect s3 s0 s1 s2", "intersect s3 s2 s1 s0", "intersect s3 s1 s2 s0 s1", "intersect s3"}
+				g.Each(ops)
+				if (a+b+c+3)%4 == 0 {
+					g.Each(c18str(ops))
+				}
 			}
 		}
 	}
@@ -512,11 +572,16 @@ func genC18Histories(g *G) {
 			"pop "+r, "addall "+r+" "+o, "removeall "+r+" "+o, "removeall "+r+" "+r, "clone "+r+" "+o, "intersect "+r+" s0 s1")
 	}
 	tail := []string{"equals s0 s1", "issubset s0 s1", "intersects s1 s0", "has s0 1"}
+	nh := 0
 	var rec func(prefix []string, depth int)
 	rec = func(prefix []string, depth int) {
 		if len(prefix) > 0 {
 			ops := append([]string{"reset"}, prefix...)
-			g.Each(append(ops, tail...))
+			ops = append(ops, tail...)
+			g.Each(ops)
+			if nh++; nh%5 == 0 {
+				g.Each(c18str(ops))
+			}
 		}
 		if depth == 0 {
 			return
@@ -666,7 +731,11 @@ func genC18Large(g *G) {
 	for si, n := range sizes {
 		for k := 0; k < perSize; k++ {
 			route := (si + off + k*4) % c18Routes
-			g.Each(c18LargeCase(g, n, route, n <= 65 || (k == 0 && n <= 300)))
+			ops := c18LargeCase(g, n, route, n <= 65 || (k == 0 && n <= 300))
+			if k == 1 {
+				ops = c18str(ops) // every size once on Set[string]
+			}
+			g.Each(ops)
 		}
 	}
 }
@@ -699,6 +768,9 @@ func genC18(g *G) {
 			return s
 		}
 		ops := []string{"reset"}
+		if c%3 == 1 {
+			ops[0] = "reset str" // a fixed third of the random cases on Set[string]
+		}
 		nops := 5 + g.Intn(maxOps)
 		for len(ops) < nops {
 			switch k := g.Intn(100); {
